@@ -72,11 +72,48 @@ def c01(res):
                       "Context DAGs; a case = (program, budget); distinct by construction of the generator", exhaustive=False)
 
 
-CHECKS = {"C01": c01}
+# --------------------------------------------------------------------------------------------
+def gen_programs(res, wd):
+    q = res.tier == "quick"
+    progs = os.path.join(wd, "progs.out")
+    res.gens.append(generate("Alloc", "AllocGen_quick.cfg" if q else "AllocGen_thorough.cfg", wd, progs))
+    return progs
+
+
+def run_recorder(res, binname, args, wd, timeout=1500):
+    rc, text = record(binname, args, wd, env={"VERIF_SEED": str(res.seed)}, timeout=timeout)
+    if rc != 0:
+        crash_violation(res, binname, rc, text, " ".join(args))
+        return False
+    return True
+
+
+def c20(res):
+    wd = workdir("C20")
+    res.models.append(model_check("EvalTrace", "EvalTrace.cfg", wd, workers=4, coverage=True))
+    progs = gen_programs(res, wd)
+    trace = os.path.join(wd, "trace.ndjson")
+    if not run_recorder(res, "c20", [progs, res.tier, trace], wd):
+        return res.finish("recorder crashed")
+    n, rej = validate("Trace_C20", trace, wd, timeout=3000)
+    res.validated = n - len(rej)
+    res.evaluations = n
+    res.samples = sample_lines(trace, maxlen=4000)
+    res.add_rejects(trace, rej, lambda r, f: "ev=%s backend=%s kind=%s fails=%s" % (r.get("ev"), r.get("backend"), r.get("kind", r.get("what")), "+".join(f)))
+    res.assumptions = ["operand values of each clause are the evaluator's own (exported as extra outputs)",
+                       "aarch64 back end not reachable on this host"]
+    return res.finish("programs from the Alloc.tla generator instantiated choice-heavy, plus seeded long programs with up to ~200 "
+                      "clauses; each evaluated by interpreter and JIT, point and interval, at special and random inputs; "
+                      "a case = one tracing evaluation or one bulk-shape observation")
+
+
+CHECKS = {"C01": c01, "C20": c20}
 
 
 def replay(prop, path):
-    spec = {"C01": "Trace_C01"}.get(prop)
+    spec = "Trace_" + prop
+    if not os.path.exists(os.path.join(SPEC, spec + ".tla")):
+        spec = None
     if spec is None:
         print("no replay for", prop)
         return 2
